@@ -134,7 +134,14 @@ def render(k):
 
 def generate(repo=None):
     k = live_constants(repo)
-    k["literals"] = source_literals(repo)
+    try:
+        k["literals"] = source_literals(repo)
+    except RuntimeError as e:
+        # the source no longer has the expected shape: keep the documented values so that the proofs and the model stay
+        # what the documentation says; the behavioural tie (full-domain resolve comparison + oracle) then decides and
+        # finds the failing input
+        k["literals"] = {"default_method": "zlib", "lz4_literal": "lz4", "level_stop": 10, "fallback_method": "zlib"}
+        k["literals_error"] = str(e)
     text = render(k)
     path = os.path.join(common.COQ, "Gen", "C03_Constants.v")
     changed = common.write_if_changed(path, text)
